@@ -21,6 +21,26 @@
 //	<id> ok <n> <wirelens> <heads> <tails> <dcounts> <errs> <delivered> <sticky> <after> <alert> <werr>
 //	<id> err handshake | <id> err pre | <id> BADCASE | <id> PANIC | <id> HANG
 //
+// Capture cases (real-capture decoding by the extracted Coq model):
+//
+//	K <id> <suite> <wC> <wS> <clientRandom> <serverRandom> <masterSecret> <recsC2S> <recsS2C>
+//
+// are PRODUCED by gen: a connection is established with Config.KeyLogWriter set and a seeded deterministic
+// Config.Rand on both sides; the client Writes wC (sizes), the server reads them and Writes wS, the client reads
+// them.  The line records what was on the wire: the randoms of ClientHello / ServerHello, the master secret from
+// the key log, and per direction every record after ChangeCipherSpec (the Finished record, then the application
+// data records), hex, comma separated.  Observation: <id> ok <bytes c2s> <bytes s2c> = the application bytes the
+// endpoints wrote and the peers read (the driver checks they are equal).  `run` on a K line performs a fresh
+// connection with the same writes and reports the same thing.  The model derives the key block from the master
+// secret and opens every record.
+//
+// Close cases:   C <id> <suite> <dir> <writes> <bufs>
+//
+// the sender performs the Writes and then CloseWrite (close_notify); ALL resulting bytes reach the receiver at
+// once (so the alert is already buffered behind the last data record), then the stream ends; the receiver Reads
+// with the given buffer sizes until an error.  Observation: <id> ok <nrecords> <delivered> <err> <eof> (eof = the
+// error was io.EOF).  This exercises Read's look-ahead for a waiting close_notify with buffers smaller than a record.
+//
 // dcounts/errs have one entry per emit plus one final entry taken at the very end (after EOF, the final drain and
 // the three sticky-check Reads), so the last dcounts entry is always the total number of delivered bytes.
 package main
@@ -261,7 +281,17 @@ func safeHandshake(c *gmtls.Conn) (err error) {
 	return c.Handshake()
 }
 
-func newLink(suite uint16) (*link, error) {
+// detRand: a seeded deterministic io.Reader for Config.Rand (capture cases)
+type detRand struct{ r *hx.Rng }
+
+func (d *detRand) Read(p []byte) (int, error) {
+	copy(p, d.r.Bytes(len(p)))
+	return len(p), nil
+}
+
+func newLink(suite uint16) (*link, error) { return newLinkOpt(suite, nil, 0) }
+
+func newLinkOpt(suite uint16, keylog io.Writer, randSeed uint64) (*link, error) {
 	if err := loadCerts(); err != nil {
 		return nil, err
 	}
@@ -274,6 +304,13 @@ func newLink(suite uint16) (*link, error) {
 	b.SetDeadline(dl)
 	cliCfg := &gmtls.Config{GMSupport: &gmtls.GMSupport{}, RootCAs: rootPool, ServerName: "localhost", CipherSuites: []uint16{suite}}
 	srvCfg := &gmtls.Config{GMSupport: &gmtls.GMSupport{}, Certificates: srvCerts}
+	if keylog != nil {
+		cliCfg.KeyLogWriter = keylog
+	}
+	if randSeed != 0 {
+		cliCfg.Rand = &detRand{hx.NewRng(randSeed*2 + 1)}
+		srvCfg.Rand = &detRand{hx.NewRng(randSeed*2 + 2)}
+	}
 	l.cli = &endpoint{raw: a, tls: gmtls.Client(a, cliCfg)}
 	l.srv = &endpoint{raw: b, tls: gmtls.Server(b, srvCfg)}
 	ch := make(chan error, 2)
@@ -759,6 +796,27 @@ func runCase(line string) string {
 	if len(f) < 2 {
 		return "? BADCASE"
 	}
+	if f[0] == "C" && len(f) == 6 {
+		ctx := &caseCtx{}
+		res, _ := hx.Guard(deadline, func() string { return doClose(ctx, f) })
+		ctx.closeAll()
+		return f[1] + " " + res
+	}
+	if f[0] == "K" && len(f) == 10 {
+		ctx := &caseCtx{}
+		res, _ := hx.Guard(deadline, func() string {
+			id, e1 := strconv.Atoi(f[1])
+			wC, ok1 := safeInts(f[3])
+			wS, ok2 := safeInts(f[4])
+			if e1 != nil || !ok1 || !ok2 || (f[2] != "cbc" && f[2] != "gcm") {
+				return "BADCASE"
+			}
+			_, obs := capture(ctx, id, f[2], wC, wS)
+			return obs
+		})
+		ctx.closeAll()
+		return f[1] + " " + res
+	}
 	if len(f) != 8 || f[0] != "S" {
 		return f[1] + " BADCASE"
 	}
@@ -794,6 +852,205 @@ func runAll(lines []string) []string {
 	}
 	wg.Wait()
 	return out
+}
+
+// ---------------------------------------------------------------------------------------------
+// capture cases
+
+// afterCCS returns the records that follow the ChangeCipherSpec record in a handshake log
+func afterCCS(log []byte) [][]byte {
+	recs := parseRecords(log)
+	for i, r := range recs {
+		if len(r) >= 1 && r[0] == 20 {
+			return recs[i+1:]
+		}
+	}
+	return nil
+}
+
+// helloRandom extracts the 32-byte random of the first handshake message (ClientHello / ServerHello)
+func helloRandom(log []byte) []byte {
+	recs := parseRecords(log)
+	if len(recs) == 0 || len(recs[0]) < 5+4+2+32 || recs[0][0] != 22 {
+		return nil
+	}
+	return append([]byte{}, recs[0][5+4+2:5+4+2+32]...)
+}
+
+// close case: writes, CloseWrite, everything delivered at once, reader with small buffers
+func doClose(ctx *caseCtx, f []string) string {
+	id, e1 := strconv.Atoi(f[1])
+	writes, ok1 := safeInts(f[4])
+	bufs, ok2 := safeInts(f[5])
+	if e1 != nil || !ok1 || !ok2 || len(bufs) == 0 || (f[2] != "cbc" && f[2] != "gcm") || (f[3] != "c2s" && f[3] != "s2c") {
+		return "BADCASE"
+	}
+	suite := suiteCBC
+	if f[2] == "gcm" {
+		suite = suiteGCM
+	}
+	l, err := newLink(suite)
+	if err != nil {
+		return "err handshake"
+	}
+	ctx.add(l)
+	snd, rcv := l.cli, l.srv
+	if f[3] == "s2c" {
+		snd, rcv = l.srv, l.cli
+	}
+	salt := id % 251
+	off := 0
+	for _, w := range writes {
+		if n, err := snd.tls.Write(streamBytes(off, w, salt)); err != nil || n != w {
+			return "err write"
+		}
+		off += w
+	}
+	if err := snd.tls.CloseWrite(); err != nil {
+		return "err closewrite"
+	}
+	raw := snd.raw.out.takeAll()
+	nrec := len(parseRecords(raw))
+	rcv.raw.in.push(raw)
+	rcv.raw.in.close()
+	var delivered []byte
+	var rerr error
+	for i := 0; i < 4*off+64; i++ {
+		buf := make([]byte, bufs[i%len(bufs)])
+		n, err := rcv.tls.Read(buf)
+		delivered = append(delivered, buf[:n]...)
+		if err != nil {
+			rerr = err
+			break
+		}
+	}
+	return fmt.Sprintf("ok %d %s %d %d", nrec, hx.Hex(delivered), b2i(rerr != nil), b2i(rerr == io.EOF))
+}
+
+// capture runs one connection and returns the K case line and its observation
+func capture(ctx *caseCtx, id int, suiteName string, wC, wS []int) (string, string) {
+	suite := suiteCBC
+	if suiteName == "gcm" {
+		suite = suiteGCM
+	}
+	var keylog bytes.Buffer
+	l, err := newLinkOpt(suite, &keylog, uint64(id)*1000003+7777)
+	if err != nil {
+		return "", "err handshake"
+	}
+	ctx.add(l)
+	// key log line: CLIENT_RANDOM <client random> <master secret>
+	kl := strings.Fields(keylog.String())
+	if len(kl) != 3 || kl[0] != "CLIENT_RANDOM" {
+		return "", "err keylog"
+	}
+	cr, sr := helloRandom(l.cli.raw.hsLog), helloRandom(l.srv.raw.hsLog)
+	if cr == nil || sr == nil || hex.EncodeToString(cr) != kl[1] {
+		return "", "err hello"
+	}
+	recsC, recsS := afterCCS(l.cli.raw.hsLog), afterCCS(l.srv.raw.hsLog)
+	salt := id % 251
+	transfer := func(snd, rcv *endpoint, writes []int, salt int) ([][]byte, []byte, bool) {
+		before := snd.raw.wrote
+		var stream []byte
+		off := 0
+		for _, w := range writes {
+			d := streamBytes(off, w, salt)
+			if n, err := snd.tls.Write(d); err != nil || n != w {
+				return nil, nil, false
+			}
+			stream = append(stream, d...)
+			off += w
+		}
+		raw := snd.raw.out.takeAll()
+		if len(raw) != snd.raw.wrote-before {
+			return nil, nil, false
+		}
+		rcv.raw.in.push(raw)
+		got := make([]byte, len(stream))
+		if _, err := io.ReadFull(rcv.tls, got); err != nil || !bytes.Equal(got, stream) {
+			return nil, nil, false
+		}
+		return parseRecords(raw), stream, true
+	}
+	rc, streamC, ok := transfer(l.cli, l.srv, wC, salt)
+	if !ok {
+		return "", "err transfer-c2s"
+	}
+	rs, streamS, ok := transfer(l.srv, l.cli, wS, salt+1)
+	if !ok {
+		return "", "err transfer-s2c"
+	}
+	recsC = append(recsC, rc...)
+	recsS = append(recsS, rs...)
+	line := fmt.Sprintf("K %d %s %s %s %s %s %s %s %s", id, suiteName, hx.Ints(wC), hx.Ints(wS),
+		hx.Hex(cr), hx.Hex(sr), kl[2], hexList(recsC), hexList(recsS))
+	return line, "ok " + hx.Hex(streamC) + " " + hx.Hex(streamS)
+}
+
+// close cases of a tier: last record larger than the Read buffer, several shapes
+func genClose(r *hx.Rng, tier string, firstID int) []string {
+	n := 24
+	if tier == "thorough" {
+		n = 200
+	}
+	var lines []string
+	for i := 0; i < n; i++ {
+		suiteName := []string{"cbc", "gcm"}[i%2]
+		dir := []string{"c2s", "s2c"}[(i/2)%2]
+		var writes []int
+		switch r.Intn(4) {
+		case 0:
+			writes = []int{700 + r.Intn(400)}
+		case 1:
+			writes = []int{1 + r.Intn(50), 600 + r.Intn(500)}
+		case 2:
+			writes = []int{3000}
+		default:
+			writes = []int{r.Intn(300), r.Intn(3), 1 + r.Intn(1100)}
+		}
+		bufs := [][]int{{100}, {512}, {1}, {7, 300}, {4096}, {64, 64, 1000}}[r.Intn(6)]
+		if len(bufs) == 1 && bufs[0] == 1 && r.Intn(2) == 0 {
+			writes = []int{1 + r.Intn(300)}
+		}
+		lines = append(lines, fmt.Sprintf("C %d %s %s %s %s", firstID+i, suiteName, dir, hx.Ints(writes), hx.Ints(bufs)))
+	}
+	return lines
+}
+
+// capture cases of a tier (ids continue after the S cases); CBC captures are kept tiny: the model runs HMAC-SM3
+// and SM4 as extracted Coq specifications
+func genCaptures(r *hx.Rng, tier string, firstID int) ([]string, []string) {
+	n := 12
+	if tier == "thorough" {
+		n = 80
+	}
+	var lines, obs []string
+	for i := 0; i < n; i++ {
+		id := firstID + i
+		suiteName := []string{"gcm", "cbc"}[i%2]
+		var wC, wS []int
+		if suiteName == "cbc" {
+			wC = []int{1 + r.Intn(400), r.Intn(3), r.Intn(200)}
+			wS = []int{1 + r.Intn(600)}
+		} else {
+			wC = []int{1 + r.Intn(300), r.Intn(5000), 1 + r.Intn(50)}
+			wS = []int{r.Intn(1500), 1 + r.Intn(100)}
+		}
+		if i%4 >= 2 {
+			wC, wS = wS, wC
+		}
+		ctx := &caseCtx{}
+		var line, o string
+		res, _ := hx.Guard(deadline, func() string { line, o = capture(ctx, id, suiteName, wC, wS); return o })
+		ctx.closeAll()
+		if line == "" {
+			line = fmt.Sprintf("K %d %s %s %s - - - - -", id, suiteName, hx.Ints(wC), hx.Ints(wS))
+		}
+		lines = append(lines, line)
+		obs = append(obs, strconv.Itoa(id)+" "+res)
+	}
+	return lines, obs
 }
 
 // ---------------------------------------------------------------------------------------------
@@ -1097,8 +1354,19 @@ func main() {
 			o.Case(l)
 			o.Obs(obs[i])
 		}
-		o.Close()
 		checkPrediction(lines, obs)
+		klines, kobs := genCaptures(hx.NewRng(seed+4242), os.Args[3], len(lines)+1)
+		for i, l := range klines {
+			o.Case(l)
+			o.Obs(kobs[i])
+		}
+		clines := genClose(hx.NewRng(seed+777), os.Args[3], len(lines)+len(klines)+1)
+		cobs := runAll(clines)
+		for i, l := range clines {
+			o.Case(l)
+			o.Obs(cobs[i])
+		}
+		o.Close()
 		return
 	}
 	if len(os.Args) >= 4 && os.Args[1] == "run" {
